@@ -41,47 +41,79 @@ structure St (K : Type) where
 
 variable {K : Type} [Add K] [Mul K] [Sub K] [Neg K] [Zero K] [One K] [Div K] [DecidableEq K] [LT K] [DecidableLT K]
 
+/-- bicgstab.hpp:200-207: the new search direction `p`, or the `Zero rho` exception -/
+def newP (st : St K) (rho1 : K) : Except Err (Vec K) :=
+  let w := st.w
+  let rho2 := st.rho1                                             -- rho2 = rho1;  (before rho1 is overwritten)
+  if st.first then .ok (vcopy w.r)                                -- if (first) { copy(*r, *p); first = false; }
+  else if rho2 = 0 then .error .zeroRho                           -- precondition(!is_zero(rho2), ...)
+  else
+    let beta := (rho1 * st.alpha) / (rho2 * st.omega)             -- beta = (rho1 * alpha) / (rho2 * omega);
+    .ok (axpbypcz 1 w.r ((-beta) * st.omega) w.v beta w.p)        -- axpbypcz(one, *r, -beta * omega, *v, beta, *p);
+
+/-- what the first half of a pass (bicgstab.hpp:209-221) computes -/
+structure Half (K : Type) where
+  rho1  : K
+  alpha : K
+  res   : K
+  p     : Vec K
+  v     : Vec K
+  T     : Vec K
+  s     : Vec K
+  x     : Vec K
+
+/-- bicgstab.hpp:209-221: the `alpha` half step with search direction `p` -/
+def half (side : Side) (ip : Vec K → Vec K → K) (sqrt : K → K) (A : CRS K) (P : Vec K → Vec K)
+    (st : St K) (p : Vec K) : Half K :=
+  let w := st.w
+  let rho1 := ip w.r w.rh                                         -- rho1 = inner_product(*r, *rh);   (line 199)
+  let vT := pspmv side P A p w.v w.T                              -- preconditioner::spmv(pside, P, A, *p, *v, *T);
+  let v := vT.1
+  let T := vT.2
+  let alpha := rho1 / ip w.rh v                                   -- alpha = rho1 / inner_product(*rh, *v);
+  let x := match side with
+    | .left  => axpby alpha p 1 st.x                              -- axpby(alpha, *p, one, x);
+    | .right => axpby alpha T 1 st.x                              -- axpby(alpha, *T, one, x);
+  let s := axpbypcz 1 w.r (-alpha) v 0 w.s                        -- axpbypcz(one, *r, -alpha, *v, zero, *s);
+  { rho1 := rho1, alpha := alpha, res := nrm ip sqrt s,           -- res = norm(*s)
+    p := p, v := v, T := T, s := s, x := x }
+
+/-- bicgstab.hpp:222-235: the `omega` half step (entered when `norm(s) > eps`), including the `++iter` -/
+def full (side : Side) (ip : Vec K → Vec K → K) (sqrt : K → K) (A : CRS K) (P : Vec K → Vec K)
+    (st : St K) (h : Half K) : Except (Err × St K) (St K) :=
+  let w := st.w
+  let tT := pspmv side P A h.s w.t h.T                            -- preconditioner::spmv(pside, P, A, *s, *t, *T);
+  let t := tT.1
+  let T' := tT.2
+  let omega := ip t h.s / ip t t                                  -- omega = inner_product(*t, *s) / inner_product(*t, *t);
+  if omega = 0 then                                               -- precondition(!is_zero(omega), ...)
+    .error (.zeroOmega, { first := false, iter := st.iter, rho1 := h.rho1, alpha := h.alpha, omega := omega,
+                          res := h.res, x := h.x, w := ⟨w.r, h.p, h.v, h.s, t, w.rh, T'⟩ })
+  else
+    let x' := match side with
+      | .left  => axpby omega h.s 1 h.x                           -- axpby(omega, *s, one, x);
+      | .right => axpby omega T' 1 h.x                            -- axpby(omega, *T, one, x);
+    let r := axpbypcz 1 h.s (-omega) t 0 w.r                      -- axpbypcz(one, *s, -omega, *t, zero, *r);
+    .ok { first := false, iter := st.iter + 1, rho1 := h.rho1, alpha := h.alpha, omega := omega,
+          res := nrm ip sqrt r,                                   -- res = norm(*r);
+          x := x', w := ⟨r, h.p, h.v, h.s, t, w.rh, T'⟩ }
+
 /-- one pass through the loop body (bicgstab.hpp:196-240) including the `++iter`.
 `.error (e, st)`: a `precondition` threw with the program state `st` (the caller's `x` may already have
 received the `alpha` half step). -/
 def body (side : Side) (ip : Vec K → Vec K → K) (sqrt : K → K) (A : CRS K) (P : Vec K → Vec K) (epsT : K)
     (st : St K) : Except (Err × St K) (St K) :=
   let w := st.w
-  let rho2 := st.rho1                                             -- rho2 = rho1;
   let rho1 := ip w.r w.rh                                         -- rho1 = inner_product(*r, *rh);
-  let pNew : Except Err (Vec K) :=
-    if st.first then .ok (vcopy w.r)                              -- if (first) { copy(*r, *p); first = false; }
-    else if rho2 = 0 then .error .zeroRho                         -- precondition(!is_zero(rho2), ...)
-    else
-      let beta := (rho1 * st.alpha) / (rho2 * st.omega)           -- beta = (rho1 * alpha) / (rho2 * omega);
-      .ok (axpbypcz 1 w.r ((-beta) * st.omega) w.v beta w.p)      -- axpbypcz(one, *r, -beta * omega, *v, beta, *p);
-  match pNew with
+  match newP st rho1 with
   | .error e => .error (e, { st with rho1 := rho1 })
   | .ok p =>
-    let (v, T) := pspmv side P A p w.v w.T                        -- preconditioner::spmv(pside, P, A, *p, *v, *T);
-    let alpha := rho1 / ip w.rh v                                 -- alpha = rho1 / inner_product(*rh, *v);
-    let x := match side with
-      | .left  => axpby alpha p 1 st.x                            -- axpby(alpha, *p, one, x);
-      | .right => axpby alpha T 1 st.x                            -- axpby(alpha, *T, one, x);
-    let s := axpbypcz 1 w.r (-alpha) v 0 w.s                      -- axpbypcz(one, *r, -alpha, *v, zero, *s);
-    let res := nrm ip sqrt s                                      -- if ((res = norm(*s)) > eps) {
-    if epsT < res then
-      let (t, T') := pspmv side P A s w.t T                       --   preconditioner::spmv(pside, P, A, *s, *t, *T);
-      let omega := ip t s / ip t t                                --   omega = inner_product(*t, *s) / inner_product(*t, *t);
-      if omega = 0 then                                           --   precondition(!is_zero(omega), ...)
-        .error (.zeroOmega, { first := false, iter := st.iter, rho1 := rho1, alpha := alpha, omega := omega,
-                              res := res, x := x, w := ⟨w.r, p, v, s, t, w.rh, T'⟩ })
-      else
-        let x' := match side with
-          | .left  => axpby omega s 1 x                           --   axpby(omega, *s, one, x);
-          | .right => axpby omega T' 1 x                          --   axpby(omega, *T, one, x);
-        let r := axpbypcz 1 s (-omega) t 0 w.r                    --   axpbypcz(one, *s, -omega, *t, zero, *r);
-        .ok { first := false, iter := st.iter + 1, rho1 := rho1, alpha := alpha, omega := omega,
-              res := nrm ip sqrt r,                               --   res = norm(*r); }
-              x := x', w := ⟨r, p, v, s, t, w.rh, T'⟩ }
-    else
-      .ok { first := false, iter := st.iter + 1, rho1 := rho1, alpha := alpha, omega := st.omega,
-            res := res, x := x, w := ⟨w.r, p, v, s, w.t, w.rh, T⟩ }
+    let h := half side ip sqrt A P st p
+    if epsT < h.res then                                          -- if ((res = norm(*s)) > eps) {
+      full side ip sqrt A P st h
+    else                                                          -- exit of the pass after the half step
+      .ok { first := false, iter := st.iter + 1, rho1 := h.rho1, alpha := h.alpha, omega := st.omega,
+            res := h.res, x := h.x, w := ⟨w.r, p, h.v, h.s, w.t, w.rh, h.T⟩ }
 
 /-- the first conjunct of the loop guard: `res > eps` -/
 def cond (epsT : K) (st : St K) : Bool := decide (epsT < st.res)
